@@ -61,6 +61,9 @@ type c07Cell struct {
 	// identity: "" = the client names itself fully; "no-version", "no-name", "anonymous" = its
 	// Implementation has an empty Version and/or Name (NewClient accepts that, and the wire form is valid)
 	identity string
+	// slow: the server needs this long to answer every request of the handshake (server/discover,
+	// initialize) - a loaded or distant, but correct server; the caller's context allows for it
+	slow time.Duration
 }
 
 func (c c07Cell) String() string {
@@ -73,6 +76,9 @@ func (c c07Cell) String() string {
 	}
 	if c.identity != "" {
 		x += " client-identity=" + c.identity
+	}
+	if c.slow != 0 {
+		x += fmt.Sprintf(" server answers the handshake after %v", c.slow)
 	}
 	return fmt.Sprintf("transport=%s json=%v store=%v advertised=%s requested=%q%s", c.transport, c.jsonResp, c.store, c.advertised, c.requested, x)
 }
@@ -89,6 +95,16 @@ func c07NewServer() *Server {
 
 func c07Run(c c07Cell) (obs, sig, msg string) {
 	s := c07NewServer()
+	if c.slow != 0 {
+		s.AddReceivingMiddleware(func(next MethodHandler) MethodHandler {
+			return func(ctx context.Context, method string, req Request) (Result, error) {
+				if method == "server/discover" || method == "initialize" {
+					time.Sleep(c.slow)
+				}
+				return next(ctx, method, req)
+			}
+		})
+	}
 	if c.noSessionIDs {
 		s = NewServer(&Implementation{Name: "srv", Version: "1"}, &ServerOptions{Logger: quietLogger, GetSessionID: func() string { return "" }})
 		AddTool(s, &Tool{Name: "t"}, func(ctx context.Context, r *CallToolRequest, in map[string]any) (*CallToolResult, any, error) {
@@ -423,6 +439,16 @@ func TestVerifC07(t *testing.T) {
 			for _, base := range []c07Cell{{transport: "inmem", advertised: "all"}, {transport: "io", advertised: "mixed"}, {transport: "sse", advertised: "all"},
 				{transport: "stateful", advertised: "all"}, {transport: "stateless", advertised: "all"}, {transport: "stateless", advertised: "all", jsonResp: true}} {
 				base.requested, base.identity = r, id
+				cells = append(cells, base)
+			}
+		}
+	}
+	// slow but correct servers: every request of the handshake takes 5 s, 12 s or 19 s (up to three are needed); the caller allows a minute
+	for _, r := range []string{"", "2026-07-28", "2025-06-18"} {
+		for _, d := range []time.Duration{5 * time.Second, 12 * time.Second, 19 * time.Second} {
+			for _, base := range []c07Cell{{transport: "inmem", advertised: "all"}, {transport: "io", advertised: "all"}, {transport: "sse", advertised: "all"},
+				{transport: "stateful", advertised: "all"}, {transport: "stateless", advertised: "all"}, {transport: "stateless", advertised: "all", jsonResp: true}} {
+				base.requested, base.slow = r, d
 				cells = append(cells, base)
 			}
 		}
